@@ -11,6 +11,17 @@ NOTE = ("Trusted: CrossHair 0.0.110 + z3, the overlay venv, the environment stub
         "isinstance shim), the harness oracles under /verif/vf. Grammars are a fixed corpus (classes cannot be symbolic); all bounds are in evidence.assumptions.")
 
 CLAIMED = {
+    "C04": dict(
+        text="For finite-choice grammars the real grow / full / PI-grow creation is explored over ALL sequences of random decisions: the symbolic path "
+             "tree of create_genotype is exhausted with leaf values realised at the end of each path, so the set of programs collected is exactly the set "
+             "reachable under any random stream; it is compared with an independent recursive enumerator of the bounded language L_d (well-typed, "
+             "refinement-satisfying programs of depth <= d): reached == L_d for grow, == the programs of L_d all of whose branches end at depth d for "
+             "FullInitializer, subset of L_d for PI-grow, and every single reached program is checked for membership on its own path. This is model "
+             "enumeration (exhaustive: true), not one for-all query; a missing program is re-established by a concrete enumeration of every draw "
+             "sequence. Bounds: d <= 3, |L_d| up to a few hundred, corpus of six finite-choice grammars.",
+        design_ref="DESIGN.md section 4 (C04)",
+        technique="all-models enumeration by exhausting the symbolic path tree of the real creation code (CrossHair/z3) vs an independent language enumerator",
+    ),
     "C05": dict(
         text="For every corpus hierarchy (abstract layers, @abstract, non-dataclass productions, unreachable classes, base / list / annotated / union / "
              "tuple fields, self, mutual and through-container recursion) the extracted grammar's productions, per-symbol minimum depths, recursive set "
